@@ -214,15 +214,38 @@ Proof.
 Qed.
 
 (* exec_queue only threads run_plain *)
-Lemma exec_queue_other_conn now cid q : forall st c2,
+(* (the clock advances by one per executed queued command, hence the quantification over now) *)
+Lemma exec_queue_other_conn cid q : forall now st c2,
   c2 <> cid -> get_conn (fst (exec_queue now st cid q)) c2 = get_conn st c2.
 Proof.
-  induction q as [|cmd q IH]; intros st c2 Hne; [reflexivity|].
+  induction q as [|cmd q IH]; intros now st c2 Hne; [reflexivity|].
   destruct cmd as [|name args]; cbn [exec_queue]; [apply IH; assumption|].
-  destruct (exec_queue now (o_st (run_plain now st cid (lower name) args true)) cid q) as [st' rs] eqn:E.
-  cbn [fst]. change st' with (fst (st', rs)). rewrite <- E. rewrite IH by assumption.
+  specialize (IH (now + 1) (o_st (run_plain now st cid (lower name) args true)) c2 Hne).
+  destruct (exec_queue (now + 1) (o_st (run_plain now st cid (lower name) args true)) cid q) as [st' rs].
+  cbn [fst] in *. rewrite IH.
   eapply shape_other_conn; [apply run_plain_shape | assumption].
 Qed.
+
+(* [flag_tx]: the arity error of a control command inside an open transaction *)
+Lemma flag_tx_none st cid c : c_queue c = None -> flag_tx st cid c = st.
+Proof. intro H. unfold flag_tx. rewrite H. reflexivity. Qed.
+
+Lemma flag_tx_some st cid c q :
+  c_queue c = Some q ->
+  flag_tx st cid c = set_conn st cid (mkConn (c_sel c) (c_resp c) (c_name c) (Some q) true (c_watch c)).
+Proof. intro H. unfold flag_tx. rewrite H. reflexivity. Qed.
+
+Lemma flag_tx_other_conn st cid c c2 : c2 <> cid -> get_conn (flag_tx st cid c) c2 = get_conn st c2.
+Proof.
+  intro Hne. unfold flag_tx. destruct (c_queue c); [|reflexivity].
+  apply get_conn_set_conn_other; assumption.
+Qed.
+
+Lemma flag_tx_dbs st cid c : s_dbs (flag_tx st cid c) = s_dbs st.
+Proof. unfold flag_tx. destruct (c_queue c); reflexivity. Qed.
+
+Lemma get_db_flag_tx st cid c i : get_db (flag_tx st cid c) i = get_db st i.
+Proof. unfold flag_tx. destruct (c_queue c); reflexivity. Qed.
 
 (* ---------- unfolding equations of [step] ---------- *)
 Definition is_name (name0 : bytes) (s : string) : Prop := lower name0 = s2b s.
@@ -275,7 +298,7 @@ Lemma step_multi_eq now st cid name0 args :
   match args, c_queue c with
   | [], None => mkOut (set_conn st cid (mkConn (c_sel c) (c_resp c) (c_name c) (Some []) false (c_watch c))) ok false
   | [], Some _ => mkOut st (err "ERR MULTI calls can not be nested") false
-  | _, _ => mkOut st argerr false
+  | _, _ => mkOut (flag_tx st cid c) argerr false
   end.
 Proof. intros H. unfold step. cbv beta iota zeta. rewrite H. reflexivity. Qed.
 
@@ -286,13 +309,13 @@ Lemma step_discard_eq now st cid name0 args :
   match args, c_queue c with
   | [], Some _ => mkOut (set_conn st cid (reset_tx c)) ok false
   | [], None => mkOut st (err "ERR DISCARD without MULTI") false
-  | _, _ => mkOut st argerr false
+  | _, _ => mkOut (flag_tx st cid c) argerr false
   end.
 Proof. intros H. unfold step. cbv beta iota zeta. rewrite H. reflexivity. Qed.
 
-Lemma step_watch_multi_eq now st cid name0 args q :
+Lemma step_watch_multi_eq now st cid name0 a args q :
   lower name0 = s2b "watch" -> c_queue (get_conn st cid) = Some q ->
-  step now st cid (name0 :: args) = mkOut st (err "ERR WATCH inside MULTI is not allowed") false.
+  step now st cid (name0 :: a :: args) = mkOut st (err "ERR WATCH inside MULTI is not allowed") false.
 Proof. intros H Hq. unfold step. cbv beta iota zeta. rewrite H, Hq. reflexivity. Qed.
 
 Lemma step_exec_eq now st cid name0 args :
@@ -300,7 +323,7 @@ Lemma step_exec_eq now st cid name0 args :
   step now st cid (name0 :: args) =
   let c := get_conn st cid in
   match args, c_queue c with
-  | _ :: _, _ => mkOut st argerr false
+  | _ :: _, _ => mkOut (flag_tx st cid c) argerr false
   | [], None => mkOut st (err "ERR EXEC without MULTI") false
   | [], Some q =>
     if c_qerr c then
@@ -322,7 +345,11 @@ Lemma step_watch_eq now st cid name0 args :
   step now st cid (name0 :: args) =
   let c := get_conn st cid in
   match c_queue c with
-  | Some _ => mkOut st (err "ERR WATCH inside MULTI is not allowed") false
+  | Some _ =>
+    match args with
+    | [] => mkOut (flag_tx st cid c) argerr false
+    | _ => mkOut st (err "ERR WATCH inside MULTI is not allowed") false
+    end
   | None =>
     match args with
     | [] => mkOut st argerr false
@@ -372,23 +399,26 @@ Proof.
   destruct (is_tx_control (lower name0)) eqn:Ht.
   - apply tx_control_cases in Ht as [Hn|[Hn|[Hn|Hn]]].
     + rewrite (step_multi_eq now st cid name0 args Hn). cbv zeta.
-      destruct args; destruct (c_queue (get_conn st cid)); cbn [o_st]; try reflexivity.
+      destruct args; destruct (c_queue (get_conn st cid)); cbn [o_st];
+        first [apply flag_tx_other_conn; assumption | reflexivity | idtac].
       apply get_conn_set_conn_other; assumption.
     + rewrite (step_exec_eq now st cid name0 args Hn). cbv zeta.
-      destruct args; [|reflexivity].
+      destruct args; [|cbn [o_st]; apply flag_tx_other_conn; assumption].
       destruct (c_queue (get_conn st cid)) as [q|]; [|reflexivity].
       destruct (c_qerr (get_conn st cid)).
       { cbn [o_st]. apply get_conn_set_conn_other; assumption. }
       destruct (watch_dirty now st (c_watch (get_conn st cid))).
       { cbn [o_st]. apply get_conn_set_conn_other; assumption. }
-      pose proof (exec_queue_other_conn now cid q (set_conn st cid (reset_tx (get_conn st cid))) c2 Hne) as H.
+      pose proof (exec_queue_other_conn cid q now (set_conn st cid (reset_tx (get_conn st cid))) c2 Hne) as H.
       destruct (exec_queue now (set_conn st cid (reset_tx (get_conn st cid))) cid q) as [st2 rs].
       cbn [o_st fst] in *. rewrite H. apply get_conn_set_conn_other; assumption.
     + rewrite (step_discard_eq now st cid name0 args Hn). cbv zeta.
-      destruct args; destruct (c_queue (get_conn st cid)); cbn [o_st]; try reflexivity.
+      destruct args; destruct (c_queue (get_conn st cid)); cbn [o_st];
+        first [apply flag_tx_other_conn; assumption | reflexivity | idtac].
       apply get_conn_set_conn_other; assumption.
     + rewrite (step_watch_eq now st cid name0 args Hn). cbv zeta.
-      destruct (c_queue (get_conn st cid)); [reflexivity|].
+      destruct (c_queue (get_conn st cid)).
+      { destruct args; cbn [o_st]; [apply flag_tx_other_conn; assumption | reflexivity]. }
       destruct args; cbn [o_st]; [reflexivity|].
       apply get_conn_set_conn_other; assumption.
   - rewrite (step_plain_eq now st cid name0 args Hk Ht). cbv zeta.
@@ -515,73 +545,91 @@ Example C09_flagged_exec_example :
 Proof. vm_compute. repeat split. Qed.
 
 (* ---------- 3. EXEC runs the queue in order ---------- *)
+(* Every executed queued command reads the clock itself: the i-th executed (non-empty)
+   command of the queue runs at time now + i, where now is the time at which EXEC starts. *)
+Definition nonempty_cmd (cmd : list bytes) : bool := match cmd with [] => false | _ => true end.
+
 (* independent restatement of exec_queue as a left fold over the queue; the accumulator
-   is (current state, replies so far) *)
-Definition run_one (now : Z) (cid : N) (acc : state * list resp) (cmd : list bytes) : state * list resp :=
+   is (time of the next command, current state, replies so far) *)
+Definition run_one (cid : N) (acc : Z * state * list resp) (cmd : list bytes) : Z * state * list resp :=
   match cmd with
   | [] => acc
   | name :: args =>
-    let o := run_plain now (fst acc) cid (lower name) args true in
-    (o_st o, snd acc ++ [o_reply o])
+    let t := fst (fst acc) in
+    let o := run_plain t (snd (fst acc)) cid (lower name) args true in
+    (t + 1, o_st o, snd acc ++ [o_reply o])
   end.
+Definition run_seq_t (now : Z) (st : state) (cid : N) (q : list (list bytes)) : Z * state * list resp :=
+  fold_left (run_one cid) q (now, st, []).
 Definition run_seq (now : Z) (st : state) (cid : N) (q : list (list bytes)) : state * list resp :=
-  fold_left (run_one now cid) q (st, []).
+  (snd (fst (run_seq_t now st cid q)), snd (run_seq_t now st cid q)).
 
-Lemma exec_queue_fold now cid q : forall st acc,
-  fold_left (run_one now cid) q (st, acc) =
-  (fst (exec_queue now st cid q), acc ++ snd (exec_queue now st cid q)).
+Lemma exec_queue_fold cid q : forall now st acc,
+  fold_left (run_one cid) q (now, st, acc) =
+  (now + Z.of_nat (length (filter nonempty_cmd q)),
+   fst (exec_queue now st cid q), acc ++ snd (exec_queue now st cid q)).
 Proof.
-  induction q as [|cmd q IH]; intros st acc.
-  - cbn. rewrite app_nil_r. reflexivity.
-  - destruct cmd as [|name args]; cbn [fold_left run_one exec_queue].
+  induction q as [|cmd q IH]; intros now st acc.
+  - cbn. rewrite app_nil_r, Z.add_0_r. reflexivity.
+  - destruct cmd as [|name args]; cbn [fold_left run_one exec_queue filter nonempty_cmd].
     + apply IH.
     + cbn [fst snd]. rewrite IH.
-      destruct (exec_queue now (o_st (run_plain now st cid (lower name) args true)) cid q) as [st' rs].
-      cbn [fst snd]. rewrite <- app_assoc. reflexivity.
+      destruct (exec_queue (now + 1) (o_st (run_plain now st cid (lower name) args true)) cid q) as [st' rs].
+      cbn [fst snd length]. rewrite <- app_assoc, Nat2Z.inj_succ.
+      replace (now + 1 + Z.of_nat (length (filter nonempty_cmd q)))
+        with (now + Z.succ (Z.of_nat (length (filter nonempty_cmd q)))) by (unfold Z.succ; ring).
+      reflexivity.
 Qed.
 
 Lemma exec_queue_run_seq now st cid q : exec_queue now st cid q = run_seq now st cid q.
 Proof.
-  unfold run_seq. rewrite exec_queue_fold. cbn [app].
+  unfold run_seq, run_seq_t. rewrite exec_queue_fold. cbn [app fst snd].
   destruct (exec_queue now st cid q); reflexivity.
 Qed.
 
-Definition nonempty_cmd (cmd : list bytes) : bool := match cmd with [] => false | _ => true end.
+(* the clock after the run: one tick per executed command *)
+Lemma run_seq_t_time now st cid q :
+  fst (fst (run_seq_t now st cid q)) = now + Z.of_nat (length (filter nonempty_cmd q)).
+Proof. unfold run_seq_t. rewrite exec_queue_fold. reflexivity. Qed.
 
-Lemma exec_queue_length now cid q : forall st,
+Lemma exec_queue_length cid q : forall now st,
   length (snd (exec_queue now st cid q)) = length (filter nonempty_cmd q).
 Proof.
-  induction q as [|cmd q IH]; intros st; [reflexivity|].
+  induction q as [|cmd q IH]; intros now st; [reflexivity|].
   destruct cmd as [|name args]; cbn [exec_queue filter nonempty_cmd]; [apply IH|].
-  specialize (IH (o_st (run_plain now st cid (lower name) args true))).
-  destruct (exec_queue now (o_st (run_plain now st cid (lower name) args true)) cid q) as [st' rs].
+  specialize (IH (now + 1) (o_st (run_plain now st cid (lower name) args true))).
+  destruct (exec_queue (now + 1) (o_st (run_plain now st cid (lower name) args true)) cid q) as [st' rs].
   cbn [snd length] in *. rewrite IH. reflexivity.
 Qed.
 
-(* consecutive execution: running q1 ++ q2 is running q1, then q2 from the state q1 left,
-   the replies concatenated; in particular no reply (error or not) ends the run *)
-Lemma exec_queue_app now cid q1 : forall st q2,
+(* consecutive execution: running q1 ++ q2 is running q1, then q2 from the state q1 left and
+   at the time q1 left (one tick per executed command of q1), the replies concatenated; in
+   particular no reply (error or not) ends the run *)
+Lemma exec_queue_app cid q1 : forall now st q2,
   exec_queue now st cid (q1 ++ q2) =
   let '(st1, rs1) := exec_queue now st cid q1 in
-  let '(st2, rs2) := exec_queue now st1 cid q2 in
+  let '(st2, rs2) := exec_queue (now + Z.of_nat (length (filter nonempty_cmd q1))) st1 cid q2 in
   (st2, rs1 ++ rs2).
 Proof.
-  induction q1 as [|cmd q1 IH]; intros st q2.
-  - cbn. destruct (exec_queue now st cid q2); reflexivity.
-  - destruct cmd as [|name args]; cbn [app exec_queue]; [apply IH|].
-    rewrite IH.
-    destruct (exec_queue now (o_st (run_plain now st cid (lower name) args true)) cid q1) as [st1 rs1].
-    destruct (exec_queue now st1 cid q2) as [st2 rs2]. reflexivity.
+  induction q1 as [|cmd q1 IH]; intros now st q2.
+  - cbn. rewrite Z.add_0_r. destruct (exec_queue now st cid q2); reflexivity.
+  - destruct cmd as [|name args]; cbn [app exec_queue filter nonempty_cmd]; [apply IH|].
+    rewrite IH. cbn [length]. rewrite Nat2Z.inj_succ.
+    replace (now + 1 + Z.of_nat (length (filter nonempty_cmd q1)))
+      with (now + Z.succ (Z.of_nat (length (filter nonempty_cmd q1)))) by (unfold Z.succ; ring).
+    destruct (exec_queue (now + 1) (o_st (run_plain now st cid (lower name) args true)) cid q1) as [st1 rs1].
+    destruct (exec_queue (now + Z.succ (Z.of_nat (length (filter nonempty_cmd q1)))) st1 cid q2) as [st2 rs2].
+    reflexivity.
 Qed.
 
 (* one step of the run, whatever the reply of the first command is *)
 Lemma exec_queue_cons now st cid name args q :
   exec_queue now st cid ((name :: args) :: q) =
   let o := run_plain now st cid (lower name) args true in
-  (fst (exec_queue now (o_st o) cid q), o_reply o :: snd (exec_queue now (o_st o) cid q)).
+  (fst (exec_queue (now + 1) (o_st o) cid q), o_reply o :: snd (exec_queue (now + 1) (o_st o) cid q)).
 Proof.
   cbn [exec_queue]. cbv zeta.
-  destruct (exec_queue now (o_st (run_plain now st cid (lower name) args true)) cid q); reflexivity.
+  destruct (exec_queue (now + 1) (o_st (run_plain now st cid (lower name) args true)) cid q); reflexivity.
 Qed.
 
 Theorem C09_exec_runs_in_order now st cid name0 q :
@@ -599,25 +647,40 @@ Theorem C09_exec_runs_in_order now st cid name0 q :
 Proof.
   intros Hn Hq He Hw. cbv zeta. rewrite (step_exec_eq now st cid name0 [] Hn). cbv zeta.
   rewrite Hq, He, Hw. rewrite <- exec_queue_run_seq.
-  pose proof (exec_queue_length now cid q (set_conn st cid (reset_tx (get_conn st cid)))) as HL.
+  pose proof (exec_queue_length cid q now (set_conn st cid (reset_tx (get_conn st cid)))) as HL.
   destruct (exec_queue now (set_conn st cid (reset_tx (get_conn st cid))) cid q) as [st2 rs].
   cbn [o_st o_reply o_block fst snd] in *. repeat split. exact HL.
 Qed.
 Print Assumptions C09_exec_runs_in_order.
 
 (* the n-th reply is the reply of the n-th queued command run in the state left by the
-   commands before it (queue without empty commands, which the server never enqueues) *)
+   commands before it, at time now + n (queue without empty commands, which the server
+   never enqueues; n = number of commands executed before it = number of replies before it) *)
 Theorem C09_exec_nth_reply now cid q1 name args q2 st :
   let '(st1, rs1) := exec_queue now st cid q1 in
+  length rs1 = length (filter nonempty_cmd q1) /\
   nth_error (snd (exec_queue now st cid (q1 ++ (name :: args) :: q2))) (length rs1) =
-  Some (o_reply (run_plain now st1 cid (lower name) args true)).
+  Some (o_reply (run_plain (now + Z.of_nat (length rs1)) st1 cid (lower name) args true)).
 Proof.
   rewrite exec_queue_app.
-  destruct (exec_queue now st cid q1) as [st1 rs1].
+  pose proof (exec_queue_length cid q1 now st) as HL.
+  destruct (exec_queue now st cid q1) as [st1 rs1]. cbn [snd] in HL. split; [exact HL|].
   rewrite exec_queue_cons. cbv zeta. cbn [snd].
-  rewrite nth_error_app2 by apply Nat.le_refl. rewrite Nat.sub_diag. reflexivity.
+  rewrite nth_error_app2 by apply Nat.le_refl. rewrite Nat.sub_diag, HL. reflexivity.
 Qed.
 Print Assumptions C09_exec_nth_reply.
+
+(* the clock does move inside one EXEC: PEXPIRE k 0 sets the deadline to the time of that
+   command; the GET queued after it runs one tick later and finds k gone *)
+Example C09_exec_time_example :
+  let st0 := o_st (step 5 state0 7 [s2b "SET"; s2b "k"; s2b "v"]) in
+  let st1 := o_st (step 5 st0 7 [s2b "MULTI"]) in
+  let st2 := o_st (step 5 st1 7 [s2b "GET"; s2b "k"]) in
+  let st3 := o_st (step 5 st2 7 [s2b "PEXPIRE"; s2b "k"; s2b "0"]) in
+  let st4 := o_st (step 5 st3 7 [s2b "GET"; s2b "k"]) in
+  let st5 := o_st (step 5 st4 7 [s2b "GET"; s2b "k"]) in
+  o_reply (step 5 st5 7 [s2b "EXEC"]) = RArr [RBulk (s2b "v"); RInt 1; RNil; RNil].
+Proof. vm_compute. reflexivity. Qed.
 
 Example C09_exec_example :
   (* SET k v ; LPUSH k x (runtime WRONGTYPE error) ; GET k : three replies, the error does not stop GET *)
@@ -658,14 +721,14 @@ Proof.
   destruct G3 as [G3|(_ & _ & G3)]; congruence.
 Qed.
 
-Lemma exec_queue_tx_clean now cid q : forall st c2,
+Lemma exec_queue_tx_clean cid q : forall now st c2,
   tx_clean (get_conn st c2) -> tx_clean (get_conn (fst (exec_queue now st cid q)) c2).
 Proof.
-  induction q as [|cmd q IH]; intros st c2 H; [exact H|].
+  induction q as [|cmd q IH]; intros now st c2 H; [exact H|].
   destruct cmd as [|name args]; cbn [exec_queue]; [apply IH; assumption|].
-  specialize (IH (o_st (run_plain now st cid (lower name) args true)) c2
+  specialize (IH (now + 1) (o_st (run_plain now st cid (lower name) args true)) c2
                  (run_plain_tx_clean now st cid (lower name) args true c2 H)).
-  destruct (exec_queue now (o_st (run_plain now st cid (lower name) args true)) cid q) as [st' rs].
+  destruct (exec_queue (now + 1) (o_st (run_plain now st cid (lower name) args true)) cid q) as [st' rs].
   exact IH.
 Qed.
 
@@ -686,7 +749,7 @@ Proof.
     { cbn [o_st]. rewrite get_conn_set_conn_same. apply tx_clean_reset. }
     destruct (watch_dirty now st (c_watch (get_conn st cid))).
     { cbn [o_st]. rewrite get_conn_set_conn_same. apply tx_clean_reset. }
-    pose proof (exec_queue_tx_clean now cid q (set_conn st cid (reset_tx (get_conn st cid))) cid) as H.
+    pose proof (exec_queue_tx_clean cid q now (set_conn st cid (reset_tx (get_conn st cid))) cid) as H.
     rewrite get_conn_set_conn_same in H. specialize (H (tx_clean_reset _)).
     destruct (exec_queue now (set_conn st cid (reset_tx (get_conn st cid))) cid q) as [st2 rs].
     exact H.
@@ -707,12 +770,16 @@ Theorem C09_discard now st cid name0 args q :
   o_block o = false /\
   (args = [] -> o_reply o = ok /\
                 get_conn (o_st o) cid = mkConn (c_sel c) (c_resp c) (c_name c) None false []) /\
-  (args <> [] -> o_reply o = argerr /\ o_st o = st).
+  (* DISCARD with arguments: arity error; the transaction stays open and is flagged *)
+  (args <> [] -> o_reply o = argerr /\
+                 o_st o = set_conn st cid (mkConn (c_sel c) (c_resp c) (c_name c) (Some q) true (c_watch c))).
 Proof.
   intros Hn Hq. cbv zeta. rewrite (step_discard_eq now st cid name0 args Hn). cbv zeta. rewrite Hq.
-  destruct args as [|a args]; cbn [o_st o_reply o_block]; repeat split; try congruence.
+  destruct args as [|a args]; cbn [o_st o_reply o_block];
+    rewrite ?(flag_tx_some st cid (get_conn st cid) q Hq); repeat split; try congruence.
   - intros c2 Hc2. apply get_conn_set_conn_other; assumption.
   - apply get_conn_set_conn_same.
+  - intros c2 Hc2. apply get_conn_set_conn_other; assumption.
 Qed.
 Print Assumptions C09_discard.
 
@@ -736,27 +803,48 @@ Example C09_state_reset_example :
 Proof. vm_compute. repeat split. Qed.
 
 (* ---------- 5. misuse of the control commands ---------- *)
+(* the errors the property names: EXEC / DISCARD without MULTI (whatever the arguments),
+   nested MULTI, WATCH k... inside MULTI: an error reply, nothing changes *)
 Theorem C09_control_errors_inert now st cid name0 args :
   let c := get_conn st cid in
   (lower name0 = s2b "exec" /\ c_queue c = None) \/
   (lower name0 = s2b "discard" /\ c_queue c = None) \/
-  (lower name0 = s2b "multi" /\ c_queue c <> None) \/
-  (lower name0 = s2b "watch" /\ c_queue c <> None) ->
+  (lower name0 = s2b "multi" /\ c_queue c <> None /\ args = []) \/
+  (lower name0 = s2b "watch" /\ c_queue c <> None /\ args <> []) ->
   let o := step now st cid (name0 :: args) in
   is_err (o_reply o) = true /\ o_st o = st /\ o_block o = false.
 Proof.
-  cbv zeta. intros [[Hn Hq]|[[Hn Hq]|[[Hn Hq]|[Hn Hq]]]].
+  cbv zeta. intros [[Hn Hq]|[[Hn Hq]|[[Hn [Hq Ha]]|[Hn [Hq Ha]]]]].
   - rewrite (step_exec_eq now st cid name0 args Hn). cbv zeta. rewrite Hq.
-    destruct args; repeat split.
+    destruct args; cbn [o_st o_reply o_block]; rewrite ?(flag_tx_none st cid _ Hq); repeat split.
   - rewrite (step_discard_eq now st cid name0 args Hn). cbv zeta. rewrite Hq.
-    destruct args; repeat split.
-  - rewrite (step_multi_eq now st cid name0 args Hn). cbv zeta.
-    destruct (c_queue (get_conn st cid)) as [q|]; [|congruence].
-    destruct args; repeat split.
+    destruct args; cbn [o_st o_reply o_block]; rewrite ?(flag_tx_none st cid _ Hq); repeat split.
+  - subst args. rewrite (step_multi_eq now st cid name0 [] Hn). cbv zeta.
+    destruct (c_queue (get_conn st cid)) as [q|]; [|congruence]. repeat split.
   - destruct (c_queue (get_conn st cid)) as [q|] eqn:Eq; [|congruence].
-    rewrite (step_watch_multi_eq now st cid name0 args q Hn Eq). repeat split.
+    destruct args as [|a args]; [congruence|].
+    rewrite (step_watch_multi_eq now st cid name0 a args q Hn Eq). repeat split.
 Qed.
 Print Assumptions C09_control_errors_inert.
+
+(* a control command with a wrong number of arguments outside a transaction
+   (MULTI x, EXEC x, DISCARD x, WATCH without key): arity error, nothing changes at all *)
+Theorem C09_control_arity_outside_multi now st cid name0 args :
+  c_queue (get_conn st cid) = None ->
+  ((lower name0 = s2b "exec" \/ lower name0 = s2b "discard" \/ lower name0 = s2b "multi") /\ args <> []) \/
+  (lower name0 = s2b "watch" /\ args = []) ->
+  step now st cid (name0 :: args) = mkOut st argerr false.
+Proof.
+  intros Hq [[[Hn|[Hn|Hn]] Ha]|[Hn Ha]].
+  - rewrite (step_exec_eq now st cid name0 args Hn). cbv zeta.
+    destruct args as [|a args]; [congruence|]. rewrite (flag_tx_none st cid _ Hq). reflexivity.
+  - rewrite (step_discard_eq now st cid name0 args Hn). cbv zeta.
+    destruct args as [|a args]; [congruence|]. rewrite (flag_tx_none st cid _ Hq). reflexivity.
+  - rewrite (step_multi_eq now st cid name0 args Hn). cbv zeta.
+    destruct args as [|a args]; [congruence|]. rewrite (flag_tx_none st cid _ Hq). reflexivity.
+  - subst args. rewrite (step_watch_eq now st cid name0 [] Hn). cbv zeta. rewrite Hq. reflexivity.
+Qed.
+Print Assumptions C09_control_arity_outside_multi.
 
 (* the precise error texts *)
 Theorem C09_control_error_texts now st cid name0 :
@@ -812,21 +900,92 @@ Proof.
 Qed.
 Print Assumptions C09_watch_abort.
 
-(* Model fact worth noticing (possible deviation, see report): MULTI / EXEC / DISCARD given
-   arguments inside MULTI answer the arity error but do NOT flag the transaction
-   (c_qerr is untouched), whereas cmdDispatcher.go:dispatch sets cmdQueueError for every
-   command rejected by the argument parser while a queue is open. *)
-Theorem C09_control_arity_inside_multi now st cid name0 a args q :
+(* A control command with a wrong number of arguments while a transaction is open
+   (MULTI x, EXEC x, DISCARD x, WATCH without key) answers the arity error and FLAGS the
+   transaction, as cmdDispatcher.go:dispatch does for every command rejected by the
+   argument parser while a queue is open: c_qerr becomes true and nothing else changes
+   (queue, watches, selected db / protocol / name, databases, other connections). *)
+Theorem C09_control_arity_inside_multi now st cid name0 args q :
   c_queue (get_conn st cid) = Some q ->
-  (lower name0 = s2b "exec" \/ lower name0 = s2b "discard" \/ lower name0 = s2b "multi") ->
-  step now st cid (name0 :: a :: args) = mkOut st argerr false.
+  ((lower name0 = s2b "exec" \/ lower name0 = s2b "discard" \/ lower name0 = s2b "multi") /\ args <> []) \/
+  (lower name0 = s2b "watch" /\ args = []) ->
+  let c := get_conn st cid in
+  let o := step now st cid (name0 :: args) in
+  o = mkOut (set_conn st cid (mkConn (c_sel c) (c_resp c) (c_name c) (Some q) true (c_watch c))) argerr false /\
+  is_err (o_reply o) = true /\
+  s_dbs (o_st o) = s_dbs st /\
+  get_conn (o_st o) cid = mkConn (c_sel c) (c_resp c) (c_name c) (Some q) true (c_watch c) /\
+  (forall c2, c2 <> cid -> get_conn (o_st o) c2 = get_conn st c2) /\
+  o_block o = false.
 Proof.
-  intros Hq [Hn|[Hn|Hn]].
-  - rewrite (step_exec_eq now st cid name0 (a :: args) Hn). reflexivity.
-  - rewrite (step_discard_eq now st cid name0 (a :: args) Hn). reflexivity.
-  - rewrite (step_multi_eq now st cid name0 (a :: args) Hn). reflexivity.
+  intros Hq Hcase. cbv zeta.
+  assert (E : step now st cid (name0 :: args) =
+              mkOut (set_conn st cid (mkConn (c_sel (get_conn st cid)) (c_resp (get_conn st cid))
+                                             (c_name (get_conn st cid)) (Some q) true
+                                             (c_watch (get_conn st cid)))) argerr false).
+  { destruct Hcase as [[[Hn|[Hn|Hn]] Ha]|[Hn Ha]].
+    - rewrite (step_exec_eq now st cid name0 args Hn). cbv zeta.
+      destruct args as [|a args]; [congruence|]. rewrite (flag_tx_some st cid _ q Hq). reflexivity.
+    - rewrite (step_discard_eq now st cid name0 args Hn). cbv zeta.
+      destruct args as [|a args]; [congruence|]. rewrite (flag_tx_some st cid _ q Hq). reflexivity.
+    - rewrite (step_multi_eq now st cid name0 args Hn). cbv zeta.
+      destruct args as [|a args]; [congruence|]. rewrite (flag_tx_some st cid _ q Hq). reflexivity.
+    - subst args. rewrite (step_watch_eq now st cid name0 [] Hn). cbv zeta. rewrite Hq.
+      rewrite (flag_tx_some st cid _ q Hq). reflexivity. }
+  rewrite E. cbn [o_st o_reply o_block]. repeat split.
+  - apply get_conn_set_conn_same.
+  - intros c2 Hc2. apply get_conn_set_conn_other; assumption.
 Qed.
 Print Assumptions C09_control_arity_inside_multi.
+
+(* ... hence the EXEC that follows (at any later time) answers EXECABORT and runs nothing:
+   the databases are those before the bad control command, the session is back to normal
+   mode, the other connections are untouched *)
+Theorem C09_control_arity_exec_aborts now now' st cid name0 args ename q :
+  c_queue (get_conn st cid) = Some q ->
+  ((lower name0 = s2b "exec" \/ lower name0 = s2b "discard" \/ lower name0 = s2b "multi") /\ args <> []) \/
+  (lower name0 = s2b "watch" /\ args = []) ->
+  lower ename = s2b "exec" ->
+  let c := get_conn st cid in
+  let st' := o_st (step now st cid (name0 :: args)) in
+  let o := step now' st' cid [ename] in
+  o_reply o = err "EXECABORT Transaction discarded because of previous errors." /\
+  s_dbs (o_st o) = s_dbs st /\
+  get_conn (o_st o) cid = mkConn (c_sel c) (c_resp c) (c_name c) None false [] /\
+  (forall c2, c2 <> cid -> get_conn (o_st o) c2 = get_conn st c2) /\
+  o_block o = false.
+Proof.
+  intros Hq Hcase He. cbv zeta.
+  destruct (C09_control_arity_inside_multi now st cid name0 args q Hq Hcase) as (_ & _ & Hd & Hc & Ho & _).
+  cbv zeta in Hd, Hc, Ho.
+  set (st' := o_st (step now st cid (name0 :: args))) in *.
+  assert (Hq' : c_queue (get_conn st' cid) = Some q) by (rewrite Hc; reflexivity).
+  assert (He' : c_qerr (get_conn st' cid) = true) by (rewrite Hc; reflexivity).
+  destruct (C09_flagged_exec_aborts now' st' cid ename q He Hq' He') as (R1 & R2 & R3 & R4 & R5).
+  cbv zeta in R1, R2, R3, R4, R5. rewrite Hc in R3. cbn [c_sel c_resp c_name] in R3.
+  repeat split; try assumption.
+  - rewrite R2. exact Hd.
+  - intros c2 Hc2. rewrite (R4 c2 Hc2). apply Ho; assumption.
+Qed.
+Print Assumptions C09_control_arity_exec_aborts.
+
+Example C09_control_arity_example :
+  (* MULTI; SET k v; then one of MULTI x / EXEC x / DISCARD x / WATCH : flagged, queue kept;
+     EXEC then aborts and k is not set.  Outside MULTI the same commands change nothing. *)
+  let st1 := o_st (step 0 ex_multi 7 [s2b "SET"; s2b "k"; s2b "v"]) in
+  let bad := [[s2b "MULTI"; s2b "x"]; [s2b "exec"; s2b "x"]; [s2b "DISCARD"; s2b "x"; s2b "y"]; [s2b "Watch"]] in
+  Forall (fun cmd =>
+    let o := step 0 st1 7 cmd in
+    o_reply o = argerr /\
+    get_conn (o_st o) 7 = mkConn 0 2 [] (Some [[s2b "SET"; s2b "k"; s2b "v"]]) true [] /\
+    step 1 (o_st o) 7 [s2b "EXEC"] =
+      mkOut (set_conn (o_st o) 7 conn0) (err "EXECABORT Transaction discarded because of previous errors.") false /\
+    s_dbs (o_st (step 1 (o_st o) 7 [s2b "EXEC"])) = [] /\
+    step 0 state0 7 cmd = mkOut state0 argerr false) bad.
+Proof.
+  intros st1 bad. unfold bad.
+  repeat (apply Forall_cons; [vm_compute; repeat split|]). apply Forall_nil.
+Qed.
 
 Example C09_watch_abort_example :
   (* connection 7 watches k, connection 8 writes k, EXEC of 7 is aborted: nil, INCR not run *)
